@@ -16,7 +16,7 @@
        verify_input on that input). *)
 From Coq Require Import String.
 From V Require Import Base.Prelude Base.Ints Base.Disp Model.Helper Model.Script Model.Tx
-  Model.Pecc Model.Psbt.
+  Model.Pecc Model.Psbt Model.PsbtSign Model.PsbtState Model.Base64 Model.PsbtB64 Model.PsbtUpdate Model.PsbtSignHd.
 Open Scope string_scope.
 Open Scope Z_scope.
 
@@ -232,6 +232,41 @@ Definition m_parse : bytes -> result (psbt * option net) :=
     (fun _ i _ _ => tbl_b tbl i 2) (descends H).
 End Inst.
 
+(* ---- additions of the deepening pass: Signer, validate as a state transformer, base64 ---- *)
+(* signature table of the Signer: VL [ VL [VB sec; VL [ VL [segwit sig | E; legacy sig | E] per input ]] ] *)
+Fixpoint sig_tbl_find (tbl : list val) (sec : bytes) : list val :=
+  match tbl with
+  | [] => []
+  | VL [VB k; VL rows] :: r => if beq k sec then rows else sig_tbl_find r sec
+  | _ :: r => sig_tbl_find r sec
+  end.
+Definition tbl_sig (tbl : list val) (sec : bytes) (i : Z) (col : nat) : result bytes :=
+  match tbl_get (sig_tbl_find tbl sec) i col with VB b => Ok b | _ => Err end.
+Definition m_sign_keys (tbl : list val) : list bytes -> psbt -> result (psbt * bool) :=
+  sign_keys (fun sec _ i _ _ => tbl_sig tbl sec i 0) (fun sec _ i _ => tbl_sig tbl sec i 1).
+
+Definition m_validate_state (H : oracle) (tbl : list val) : psbt -> result unit * tx :=
+  validate_state (o_hash160 H) (o_sha256 H) (o_hash256 H) sig_parse_ok ecdsa_ok
+    (fun _ i _ => tbl_z tbl i 0) (fun _ i _ _ => tbl_z tbl i 1)
+    (fun _ i _ _ => tbl_b tbl i 2) (descends H).
+Definition m_parse_base64 (H : oracle) (tbl : list val) : bool -> list Z -> result (psbt * option net) :=
+  psbt_parse_base64 (o_hash160 H) (o_sha256 H) (o_hash256 H) sec_ok sig_parse_ok ecdsa_ok
+    (fun _ i _ => tbl_z tbl i 0) (fun _ i _ _ => tbl_z tbl i 1)
+    (fun _ i _ _ => tbl_b tbl i 2) (descends H).
+Definition dec_pair (v : val) : option (bytes * bytes) :=
+  match v with VL [VB a; VB b] => Some (a, b) | _ => None end.
+
+(* PSBT.sign(hd_priv): derivation table VL [ VL [VB raw_path; VB sec | E] ] *)
+Fixpoint derive_find (tbl : list val) (path : bytes) : result bytes :=
+  match tbl with
+  | [] => Err
+  | VL [VB p; VB s] :: r => if beq p path then Ok s else derive_find r path
+  | VL [VB p; _] :: r => if beq p path then Err else derive_find r path
+  | _ :: r => derive_find r path
+  end.
+Definition m_sign_hd (dtbl stbl : list val) : bytes -> psbt -> result (psbt * bool) :=
+  sign_hd (fun sec _ i _ _ => tbl_sig stbl sec i 0) (fun sec _ i _ => tbl_sig stbl sec i 1) (derive_find dtbl).
+
 Definition vunit (r : result unit) : val := match r with Ok _ => VI 1 | Err => VErr end.
 
 Definition dispatch (H : oracle) (fn : list Z) (args : list val) : val :=
@@ -314,5 +349,70 @@ Definition dispatch (H : oracle) (fn : list Z) (args : list val) : val :=
   else if fn_is "assemble_tx" fn then
     match args with
     | [v] => match dec_psbt v with Some p => vres enc_tx (assemble_tx p) | None => bad_args end
+    | _ => bad_args end
+  else if fn_is "sign_keys" fn then
+    match args with
+    | [v; VL secs; VL tbl] =>
+        match dec_psbt v, vals_bytes secs with
+        | Some p, Some ks => vres (fun '(q, b) => VL [enc_psbt q; vbool b]) (m_sign_keys tbl ks p)
+        | _, _ => bad_args end
+    | _ => bad_args end
+  else if fn_is "validate_state" fn then
+    match args with
+    | [v; VL tbl] =>
+        match dec_psbt v with
+        | Some p => let '(r, t) := m_validate_state H tbl p in
+                    VL [VI (match r with Ok _ => 1 | Err => 0 end); enc_tx t]
+        | None => bad_args end
+    | _ => bad_args end
+  else if fn_is "b64_encode" fn then
+    match args with
+    | [VB b] => VB (b64_encode b)
+    | _ => bad_args end
+  else if fn_is "b64_decode" fn then
+    match args with
+    | [VB s; VI is_str] => vres_b (if is_str =? 0 then b64_decode_bytes s else b64_decode_str s)
+    | _ => bad_args end
+  else if fn_is "parse_base64" fn then
+    match args with
+    | [VB s; VI is_str; VL tbl] =>
+        vres (fun '(p, n) => VL [enc_psbt p; enc_net n]) (m_parse_base64 H tbl (negb (is_str =? 0)) s)
+    | _ => bad_args end
+  else if fn_is "in_update" fn then
+    match args with
+    | [v; ti; txl; pk; rl; wl] =>
+        match dec_in v, dec_txin ti, dec_dict dec_tx txl with
+        | Some st, Some t, Some l1 =>
+            match dec_dict dec_pair pk, dec_dict dec_script rl, dec_dict dec_script wl with
+            | Some l2, Some l3, Some l4 => vres enc_in (in_update l1 l2 l3 l4 st t)
+            | _, _, _ => bad_args end
+        | _, _, _ => bad_args end
+    | _ => bad_args end
+  else if fn_is "out_update" fn then
+    match args with
+    | [v; to; pk; rl; wl] =>
+        match dec_out v, dec_txout to with
+        | Some st, Some t =>
+            match dec_dict dec_pair pk, dec_dict dec_script rl, dec_dict dec_script wl with
+            | Some l2, Some l3, Some l4 => vres enc_out (out_update l2 l3 l4 st t)
+            | _, _, _ => bad_args end
+        | _, _ => bad_args end
+    | _ => bad_args end
+  else if fn_is "update" fn then
+    match args with
+    | [v; txl; pk; rl; wl] =>
+        match dec_psbt v, dec_dict dec_tx txl with
+        | Some p, Some l1 =>
+            match dec_dict dec_pair pk, dec_dict dec_script rl, dec_dict dec_script wl with
+            | Some l2, Some l3, Some l4 => vres enc_psbt (psbt_update l1 l2 l3 l4 p)
+            | _, _, _ => bad_args end
+        | _, _ => bad_args end
+    | _ => bad_args end
+  else if fn_is "sign_hd" fn then
+    match args with
+    | [v; VB fp; VL dtbl; VL stbl] =>
+        match dec_psbt v with
+        | Some p => vres (fun '(q, b) => VL [enc_psbt q; vbool b]) (m_sign_hd dtbl stbl fp p)
+        | None => bad_args end
     | _ => bad_args end
   else bad_args.
